@@ -5,7 +5,8 @@ import array
 import cffi
 from lib.vlib import worker_main
 
-CDEF = "struct s3 { char a[3]; }; struct s0 { };"
+CDEF = ("struct s3 { char a[3]; }; struct s0 { }; struct s8 { int a; float b; }; union u4 { int i; char c[3]; }; "
+        "enum e_s { ES_A = -5, ES_B = 7 }; enum e_u { EU_A = 0, EU_B = 0xFFFFFFFF }; enum e_l { EL_A = -1, EL_B = 0x100000000 };")
 
 
 def mk_key(k):
@@ -124,6 +125,24 @@ def run_fb(ffi, c):
         return dict(out=["err", type(e).__name__])
     t = ffi.typeof(cd)
     res = dict(out=["ok", len(cd) if t.kind == "array" else -1])
+    if t.kind == "array":
+        n = len(cd)
+        # only the exception class matters; nothing is read when the index is refused
+        def probe(i):
+            try:
+                ffi.addressof(cd, i) if False else cd[i]
+                return "ok"
+            except Exception as e:
+                return type(e).__name__
+        res["past_end"] = probe(n)
+        if 0 < n and n * ffi.sizeof(t.item) <= len(data) and t.item.kind != "struct" or False:
+            pass
+        if 0 < n and n * ffi.sizeof(t.item) <= len(data):
+            res["last"] = probe(n - 1) if t.item.cname != "_Bool" else "ok"
+        try:
+            res["span"] = len(ffi.buffer(cd))
+        except Exception as e:
+            res["span"] = type(e).__name__
     if t.kind == "array" and c["obj"] in ("bytearray", "array_B", "memoryview") and len(data):
         # aliasing both ways, through the raw bytes
         raw = ffi.buffer(ffi.cast("char *", cd), len(data))
